@@ -53,6 +53,13 @@ class BodyError(Exception):
     """Exception raised by scripted task bodies."""
 
 
+class FalsyError(BodyError):
+    """An exception whose instances are falsy (e.g. an error collection that is empty)."""
+
+    def __bool__(self) -> bool:
+        return False
+
+
 class BodyBaseError(BaseException):
     """BaseException (not Exception) raised by scripted task bodies."""
 
@@ -371,6 +378,8 @@ def make_tasks(env: Env, broker: ScriptedBroker, cfg: Dict[str, Any]) -> None:
             return val
         if outcome == "exc":
             exc: BaseException = BodyError(f"boom {i}", i)
+        elif outcome == "falsy":
+            exc = FalsyError(f"empty {i}")
         elif outcome == "base":
             exc = BodyBaseError(f"base {i}")
         elif outcome == "nores":
